@@ -295,6 +295,10 @@ Proof.
     destruct o as [sh rk ini sv mk nr it ax]. simpl. unfold sk_constrained_parafac, sk_initialize_constrained, sk_initialize_constrained_gen. simpl.
     destruct Hp as [-> | ->]; simpl; destruct ini; try reflexivity;
       (rewrite gf_seqs_map; [reflexivity|]; intro d; simpl; destruct (Nat.ltb d rk), sv; reflexivity).
+  - (* initialize_constrained_parafac *)
+    destruct o as [sh rk ini sv mk nr it ax]. simpl. unfold sk_initialize_constrained, sk_initialize_constrained_gen. simpl.
+    destruct Hp as [-> | ->]; simpl; destruct ini; try reflexivity;
+      (rewrite gf_seqs_map; [reflexivity|]; intro d; simpl; destruct (Nat.ltb d rk), sv; reflexivity).
   - (* randomised_parafac *)
     destruct o as [sh rk ini sv mk nr it ax]. simpl. unfold sk_randomised_parafac, sk_initialize_cp, sk_initialize_cp_gen. simpl.
     destruct Hp as [-> | ->]; simpl; destruct ini; try reflexivity;
